@@ -20,6 +20,8 @@ ID = "C26"
 LEVEL = "exploration"
 CHUNK_TIMEOUT = 1200
 UPDATE_KINDS = ("update_return_type", "add_subclass_edge", "add_generator")
+# add_subclass_edge comes in sub-kinds (History.edge_tags): new-subclass, unrelated-classes, shortcut-edge over a 2-/3-step path
+# (reachability unchanged, shortest path shorter), duplicate-edge, diamond, equal-length-second-path
 RULE = (
     "generated packages (vlib/modgen.py) are analysed twice by the real generate_test_cluster (rank and random provider); a fixed "
     "query set (requested types = parameter types of the analysed signatures, their union members, random types over the module's "
@@ -45,8 +47,14 @@ def floors(tier):
         "evals": 150000 * k,
         "distinct": 2000,
         "classes": {
-            "clusters": 140 * k, "oracle:compatible": 50000 * k, "oracle:providers-agree": 15000 * k, "oracle:cache-vs-fresh": 60000 * k,
+            "clusters": 135 * k, "oracle:compatible": 50000 * k, "oracle:providers-agree": 15000 * k, "oracle:cache-vs-fresh": 60000 * k,
             "update:update_return_type": 100 * k, "update:add_subclass_edge": 100 * k, "update:add_generator": 100 * k,
+            "update:add_subclass_edge:shortcut-edge": 40 * k, "update:add_subclass_edge:shortcut-edge:2-step": 15 * k,
+            "update:add_subclass_edge:shortcut-edge:3-step": 8 * k, "update:add_subclass_edge:duplicate-edge": 20 * k,
+            "update:add_subclass_edge:equal-length-second-path": 8 * k, "update:add_subclass_edge:diamond": 8 * k,
+            "update:add_subclass_edge:unrelated-classes": 10 * k, "update:add_subclass_edge:new-subclass": 20 * k,
+            "sequence:update_return_type->add_subclass_edge": 30 * k, "sequence:add_generator->add_subclass_edge": 30 * k,
+            "query:_sorted_generators[rank]": 2000,
             "query:is_subclass": 3000, "query:is_subtype": 3000, "query:is_maybe_subtype": 3000, "query:subtype_distance": 3000,
             "query:get_subclasses": 1000, "query:get_superclasses": 1000, "query:_get_generators_for[rank]": 3000,
             "query:_get_generators_for[random]": 3000, "query:get_all_generatable_types": 500,
@@ -57,8 +65,8 @@ def floors(tier):
 
 
 def plan(tier, seed):
-    chunks = [{"name": "directed", "seed": seed}]
-    n_chunks, per = (15, 10) if tier == "quick" else (60, 20)
+    chunks = [{"name": "directed", "seed": seed}, {"name": "directed-edges", "seed": seed}]
+    n_chunks, per = (14, 10) if tier == "quick" else (60, 20)
     for p in range(n_chunks):
         chunks.append({"name": "random", "seed": seed, "part": p, "n": per})
     return chunks
@@ -83,10 +91,32 @@ def gid(g):
     return ("other", repr(g))
 
 
-def clone_ts(ts):
-    from pynguin.analyses.typesystem import TypeSystem
+_FRESH_CLS = None
 
-    f = TypeSystem()
+
+def _fresh_ts_class():
+    """A TypeSystem subclass whose queries are the *undecorated* functions: a recomputation that neither reads nor fills
+    (nor evicts from) the lru caches under test."""
+    global _FRESH_CLS  # noqa: PLW0603
+    if _FRESH_CLS is None:
+        from vlib import typepool as tp
+
+        from pynguin.analyses.typesystem import TypeSystem
+
+        ns = {}
+        for name in tp.CACHED_TS_METHODS:
+            meth = getattr(TypeSystem, name, None)
+            if meth is not None:
+                ns[name] = getattr(meth, "__wrapped__", meth)
+        _FRESH_CLS = type("FreshTypeSystem", (TypeSystem,), ns)
+    return _FRESH_CLS
+
+
+def clone_ts(ts):
+    """Recomputation reference on a copy of the current graph.  Built without TypeSystem.__init__: the constructor adds
+    edges itself, and add_subclass_edge may clear the (class-level, shared) lru caches that are being observed."""
+    f = object.__new__(_fresh_ts_class())
+    f.__dict__.update(ts.__dict__)
     f._graph = ts._graph.copy()  # noqa: SLF001
     f._types = dict(ts._types)  # noqa: SLF001
     return f
@@ -152,16 +182,18 @@ class History:
         self.dyn = []
         self.n_dyn = 0
         self.step_no = 0
+        self.force_planned = False
+        self.edge_targets = []
 
     # ---- query set ---------------------------------------------------------------------------------
-    def build_queries(self, n_types=28, n_pairs=36, n_classes=14):
+    def build_queries(self, n_types=24, n_pairs=24, n_classes=12):
         rng, pool, tsm = self.rng, self.pool, self.tsm
         import sys
 
         sm = sys.modules[self.m["sut"]]
         # runtime-discovered subclasses: known to the type system (node) before their edge is added
         bases = [ti for ti in pool.module_infos if not issubclass(ti.raw_type, __import__("enum").Enum) and ti.raw_type.__flags__ & (1 << 10)]
-        for _ in range(3):
+        for _ in range(2):
             if not bases:
                 break
             b = rng.choice(bases)
@@ -174,7 +206,8 @@ class History:
             setattr(sm, name, cls)
             infos = [s.ts.to_type_info(cls) for s in self.sides]
             self.dyn.append((infos[0], b))
-        dyn_infos = [d for d, _ in self.dyn]
+        self.build_scaffold(bases, sm)
+        dyn_infos = [d for d, _ in self.dyn] + [ti for ti in self.scaffold if ti not in bases]
         # requested types
         params = [t for t in pool.harvested]
         rng.shuffle(params)
@@ -188,6 +221,8 @@ class History:
             req.append(tsm.Instance(pool.list_i, (tsm.Instance(d),)))
         for _, b in self.dyn:
             req.append(self.rank.ts.make_instance(b))
+        for ti in self.scaffold:
+            req.append(self.rank.ts.make_instance(ti))
         req += [tsm.ANY, tsm.NONE_TYPE, self.rank.ts.convert_type_hint(int), self.rank.ts.convert_type_hint(str)]
         while len(req) < n_types:
             req.append(pool.rand(1))
@@ -201,6 +236,11 @@ class History:
         self.class_pairs = []
         for d, b in self.dyn:
             self.class_pairs += [(d, b), (b, d), (d, self.rank.ts.to_type_info(object))]
+        for group in self.affected_groups:  # every ordered pair along the paths a planned edge touches
+            for a in group:
+                for b in group:
+                    if a != b:
+                        self.class_pairs.append((a, b))
         while len(self.class_pairs) < n_classes * 2:
             self.class_pairs.append((rng.choice(cls_infos), rng.choice(cls_infos)))
         self.class_singles = [b for _, b in self.dyn] + dyn_infos + [rng.choice(cls_infos) for _ in range(n_classes)]
@@ -209,10 +249,116 @@ class History:
         for d, b in self.dyn:
             di, bi = tsm.Instance(d), self.rank.ts.make_instance(b)
             self.type_pairs += [(di, bi), (bi, di), (tsm.TupleType((di,)), tsm.TupleType((bi,))), (pool.union([di, tsm.NONE_TYPE]), pool.union([bi, tsm.NONE_TYPE]))]
+        for group in self.affected_groups:
+            for a in group:
+                for b in group:
+                    if a != b:
+                        self.type_pairs.append((self.rank.ts.make_instance(a), self.rank.ts.make_instance(b)))
+        n_pairs += len(self.type_pairs)
         while len(self.type_pairs) < n_pairs:
             a = pool.rand(1)
             b = pool.widen(a) if rng.random() < 0.5 else pool.rand(1)
             self.type_pairs.append((a, b) if rng.random() < 0.5 else (b, a))
+
+    def build_scaffold(self, bases, sm):
+        """Runtime classes with several bases, registered the way the module analysis does it: one edge per base, one at a
+        time.  X <- S1 <- S2 <- S3 where S2 and S3 also list X as a direct base (shortcut edges over a 2- and a 3-step path),
+        X <- L, X <- R, D(L, R) (the second edge closes a diamond / adds a second path of equal length).  The first edge of every
+        class is part of the initial graph; the remaining ones are *planned* updates of the history."""
+        import networkx as nx
+
+        self.scaffold, self.affected_groups, self.planned_edges = [], [], []
+        rng = self.rng
+        g = self.rank.ts._graph  # noqa: SLF001
+        mi = self.pool.module_infos
+        if bases:
+            x = rng.choice(bases)
+            mk = lambda name, bs: type(name, bs, {"__module__": self.m["sut"], "__qualname__": name})  # noqa: E731
+            try:
+                s1 = mk("DynS1", (x.raw_type,))
+                s2 = mk("DynS2", (s1, x.raw_type))
+                s3 = mk("DynS3", (s2, x.raw_type))
+                le = mk("DynL", (x.raw_type,))
+                ri = mk("DynR", (x.raw_type,))
+                di = mk("DynD", (le, ri))
+            except TypeError:
+                s1 = None
+            if s1 is not None:
+                infos = {}
+                for cls in (s1, s2, s3, le, ri, di):
+                    setattr(sm, cls.__name__, cls)
+                    infos[cls.__name__] = [s.ts.to_type_info(cls) for s in self.sides][0]
+                S1, S2, S3, L, R, D = (infos[n] for n in ("DynS1", "DynS2", "DynS3", "DynL", "DynR", "DynD"))
+                for sup, sub in ((x, S1), (S1, S2), (S2, S3), (x, L), (x, R), (L, D)):
+                    self._add_edge_both(sup, sub)
+                self.scaffold = [x, S1, S2, S3, L, R, D]
+                self.affected_groups += [[x, S1, S2, S3], [x, L, R, D]]
+                self.planned_edges += [("shortcut-3", x, S3), ("shortcut-2", x, S2), ("duplicate", x, S1), ("diamond", R, D), ("duplicate", S1, S2)]
+        # the same kinds over the module's own classes, where the analysed hierarchy offers them
+        nodes = [ti for ti in mi if ti in g] + [self.rank.ts.to_type_info(object)]
+        natural = {"shortcut-2": [], "shortcut-3": [], "duplicate": [], "diamond": []}
+        for a in nodes:
+            lengths = nx.single_source_shortest_path_length(g, a, cutoff=3)
+            for c, d in lengths.items():
+                if c in mi and d in (2, 3):
+                    natural[f"shortcut-{d}"].append((a, c))
+            for c in g.successors(a):
+                if c in mi:
+                    natural["duplicate"].append((a, c))
+        for a in mi:
+            kids = [k for k in g.successors(a) if k in mi]
+            for le in kids:
+                for ri in kids:
+                    if le == ri or nx.has_path(g, le, ri) or nx.has_path(g, ri, le):
+                        continue
+                    for d in g.successors(le):
+                        if d in mi and not nx.has_path(g, ri, d) and not nx.has_path(g, d, ri):
+                            natural["diamond"].append((ri, d, a, le))
+        for kind, cands in natural.items():
+            if cands and rng.random() < 0.6:
+                c = rng.choice(cands)
+                self.planned_edges.append((kind, c[0], c[1]))
+                if kind.startswith("shortcut"):
+                    self.affected_groups.append(list(nx.shortest_path(g, c[0], c[1])))
+                elif kind == "diamond":
+                    self.affected_groups.append([c[2], c[3], c[0], c[1]])
+        rng.shuffle(self.planned_edges)
+        # sub endpoints: preferred targets of update_return_type / add_generator, so that generators are affected by the edges
+        self.edge_targets = [e[2] for e in self.planned_edges if isinstance(e[2].raw_type, type)]
+
+    def _add_edge_both(self, sup, sub):
+        for s in self.sides:
+            s.ts.add_subclass_edge(super_class=s.ts.find_type_info(sup.full_name) or sup, sub_class=s.ts.find_type_info(sub.full_name) or sub)
+
+    def edge_tags(self, sup, sub):
+        """What this edge does to the current graph (features of the update, used as coverage classes and in the log)."""
+        import networkx as nx
+
+        g = self.rank.ts._graph  # noqa: SLF001
+        tags = []
+        if g.has_edge(sup, sub):
+            return ["duplicate-edge"]
+        if nx.has_path(g, sup, sub):
+            d = nx.shortest_path_length(g, sup, sub)
+            tags += ["shortcut-edge", f"shortcut-edge:{d}-step"]
+        else:
+            parents = list(g.predecessors(sub)) if sub in g else []
+            if not parents:
+                tags.append("new-subclass")
+            elif not nx.has_path(g, sub, sup):
+                tags.append("unrelated-classes" if all(not nx.has_path(g, p, sup) and not nx.has_path(g, sup, p) for p in parents) else "related-classes")
+            obj = self.rank.ts.to_type_info(object)
+            anc_sup = nx.ancestors(g, sup) | {sup}
+            for p in parents:
+                common = (nx.ancestors(g, p) | {p}) & anc_sup - {obj}
+                if common and not nx.has_path(g, p, sup) and not nx.has_path(g, sup, p):
+                    tags.append("diamond")
+                    break
+            for a in anc_sup:
+                if a != obj and nx.has_path(g, a, sub) and nx.shortest_path_length(g, a, sub) == nx.shortest_path_length(g, a, sup) + 1:
+                    tags.append("equal-length-second-path")
+                    break
+        return tags
 
     def all_queries(self):
         for a, b in self.class_pairs:
@@ -282,9 +428,41 @@ class History:
                                 {**self.case, "step": self.step_no, "op": op, "query": q, "args": [str(a) for a in args], "history": self.log})
                 if q == "_get_generators_for":
                     offers[(s.name, args[0])] = ref
+                    if s.name == "rank" and cached == ref and ref:
+                        self.check_order(s, fprov, args[0], op)
         fts = fresh["rank"][0]
         for T in self.req:
             self.oracles_on_offer(T, offers.get(("rank", T)), offers.get(("random", T)), fts, fresh)
+
+    def check_order(self, side, fprov, T, op):
+        """The order in which the rank provider ranks the offered generators (observable through _sorted_generators, which
+        RankSelection indexes into).  Only evaluated when membership and distances already agree; ties are compared as sets."""
+        def ranking(prov):
+            res = prov._sorted_generators(prov._get_generators_for(T).freeze())  # noqa: SLF001
+            groups = []
+            for x in res:
+                f = x.get_fitness()
+                if groups and groups[-1][0] == f:
+                    groups[-1][1].add(gid(x.generator))
+                else:
+                    groups.append((f, {gid(x.generator)}))
+            return [(f, frozenset(ids)) for f, ids in groups]
+
+        try:
+            cached, ref = ranking(side.prov), ranking(fprov)
+        except Exception as e:  # noqa: BLE001
+            self.ctx.witness(f"raises:_sorted_generators:{type(e).__name__}", f"_sorted_generators for {T} raised {e!r} after {op}", {**self.case, "T": str(T)})
+            return
+        self.ctx.ok(cls=["oracle:cache-vs-fresh", "query:_sorted_generators[rank]"], distinct=f"{self.case['module']}|{self.step_no}|order|{self.tp.shape(T)}")
+        ident = ("rank", "_sorted_generators", (T,))
+        if cached != ref and ident not in self.stale_seen:
+            self.stale_seen.add(ident)
+            first = next((i for i, (a, b) in enumerate(zip(cached, ref)) if a != b), min(len(cached), len(ref)))
+            self.ctx.witness(f"stale:_sorted_generators[rank]:after:{op}",
+                             f"after {op} (step {self.step_no}) the rank order of generators for {T} differs from a fresh provider at rank group {first}: "
+                             f"cached {_short(cached[first][1]) if first < len(cached) else '-'} (fitness {cached[first][0] if first < len(cached) else '-'}) vs "
+                             f"fresh {_short(ref[first][1]) if first < len(ref) else '-'} (fitness {ref[first][0] if first < len(ref) else '-'})",
+                             {**self.case, "step": self.step_no, "op": op, "T": str(T), "history": self.log})
 
     # ---- oracles 1 and 2 ------------------------------------------------------------------------------
     def req_class(self, T):
@@ -436,6 +614,8 @@ class History:
     def new_return_type(self):
         rng, tsm, pool = self.rng, self.tsm, self.pool
         r = rng.random()
+        if self.edge_targets and rng.random() < 0.4:
+            return self.rank.ts.make_instance(rng.choice(self.edge_targets))
         if r < 0.45:
             return self.rank.ts.make_instance(rng.choice(pool.module_infos + [d for d, _ in self.dyn]))
         if r < 0.6:
@@ -458,10 +638,25 @@ class History:
                 s.cluster.update_return_type(s.by_gid[k], new)
             return
         if kind == "add_subclass_edge":
+            import networkx as nx
+
+            g = self.rank.ts._graph  # noqa: SLF001
             pending = [(d, b) for d, b in self.dyn if not _has_edge(self.rank.ts, b, d)]
-            if pending and rng.random() < 0.7:
+            planned = None
+            while self.planned_edges and planned is None:
+                cand = self.planned_edges.pop()
+                if not nx.has_path(g, cand[2], cand[1]) or cand[0] == "duplicate":  # never close a cycle
+                    planned = cand
+            r = rng.random()
+            if planned is not None and (r < 0.6 or self.force_planned):
+                sup, sub = planned[1], planned[2]
+            elif pending and r < 0.85:
+                if planned is not None:
+                    self.planned_edges.append(planned)
                 sub, sup = pending[0]
             else:
+                if planned is not None:
+                    self.planned_edges.append(planned)
                 infos = self.pool.module_infos
                 for _ in range(20):
                     sup, sub = rng.choice(infos), rng.choice(infos)
@@ -469,9 +664,14 @@ class History:
                         break
                 else:
                     sub, sup = self.dyn[0] if self.dyn else (infos[0], infos[-1])
-            self.log.append([kind, sup.full_name, sub.full_name])
-            for s in self.sides:
-                s.ts.add_subclass_edge(super_class=s.ts.find_type_info(sup.full_name) or sup, sub_class=s.ts.find_type_info(sub.full_name) or sub)
+            tags = self.edge_tags(sup, sub)
+            for t in tags:
+                self.ctx.cls(f"update:add_subclass_edge:{t}")
+            for prev in {h[0] for h in self.log}:
+                if prev != kind:
+                    self.ctx.cls(f"sequence:{prev}->add_subclass_edge")
+            self.log.append([kind, sup.full_name, sub.full_name, tags])
+            self._add_edge_both(sup, sub)
             return
         # add_generator: a function discovered later, returning a module class / a runtime subclass / a container / nothing annotated
         from pynguin.analyses.type_inference import HintInference
@@ -480,6 +680,8 @@ class History:
         self.n_dyn += 1
         choices = [ti.raw_type for ti in self.pool.module_infos] + [d.raw_type for d, _ in self.dyn]
         target = rng.choice(choices)
+        if self.edge_targets and rng.random() < 0.5:
+            target = rng.choice(self.edge_targets).raw_type
         ret = rng.choice([target, target, list[target], target | None, None])
         name = f"dyn_fn{self.n_dyn}"
 
@@ -537,9 +739,10 @@ def _safe(f):
         return f"raises {type(e).__name__}"
 
 
-def run_cluster(ctx, manifest, rng, steps, kinds=None, note=None):
+def run_cluster(ctx, manifest, rng, steps, kinds=None, note=None, force_planned=False):
     case = {"gen": manifest["gen"], "module": manifest["sut"], "forced": note}
     h = History(ctx, manifest, rng, case)
+    h.force_planned = force_planned
     h.run(steps, kinds)
     return h
 
@@ -557,6 +760,13 @@ def run_chunk(spec, ctx):
         for gi, kinds in enumerate([["update_return_type"], ["add_subclass_edge"], ["add_generator"]]):
             m = modgen.generate(4100 + seed, gi, ctx.scratch, tag="c26d", force=("chain", "diamond", "generic", "enum", "builtin_base"), size="small")
             run_cluster(ctx, m, random.Random(f"c26-directed-{seed}-{gi}"), 5, kinds=kinds, note=kinds)
+        return
+    if spec["name"] == "directed-edges":
+        # every edge kind (shortcut over 2 and 3 steps, duplicate, diamond / second path of equal length, natural candidates),
+        # once right after the analysis and once after update_return_type / add_generator targeted at the affected classes
+        for gi, kinds in enumerate([["add_subclass_edge"] * 9, ["update_return_type", "add_generator", "update_return_type", "add_generator"] + ["add_subclass_edge"] * 8]):
+            m = modgen.generate(4200 + seed, gi, ctx.scratch, tag="c26d", force=("chain", "diamond", "helper_base", "override"), size="medium")
+            run_cluster(ctx, m, random.Random(f"c26-directed-edges-{seed}-{gi}"), len(kinds), kinds=kinds, note=kinds, force_planned=True)
         return
     rng = random.Random(f"c26:{seed}:{spec['part']}")
     for j in range(spec["n"]):
